@@ -103,13 +103,19 @@ class VonMisesTube(om.ExplicitComponent):
             outputs["vonmises"][ielem, 1] = np.sqrt(sxx1**2 + 3 * sxt**2)
 
     def compute_partials(self, inputs, partials):
+        dtype = float
+        if self.under_complex_step:
+            dtype = complex
+
         radius = inputs["radius"]
         disp = inputs["disp"]
         nodes = inputs["nodes"]
-        T = self.T
+        # Allocate the work arrays here: those left behind by compute() have the dtype of the last
+        # evaluation, which is complex after a complex-step check.
+        T = np.zeros((3, 3), dtype=dtype)
         E = self.E
         G = self.G
-        x_gl = self.x_gl
+        x_gl = np.array([1, 0, 0], dtype=dtype)
 
         num_elems = self.ny - 1
         for ielem in range(num_elems):
